@@ -69,7 +69,7 @@ def curve(T, base=20.0, hs=1.0, hbp=55.0, cs=1.0, cbp=68.0):
 
 
 def daily_usage(temp, base=20.0, hs=1.0, hbp=55.0, cs=1.0, cbp=68.0, noise=0.02, seed=0,
-                weekend_factor=1.0, summer_factor=1.0, spikes=0, lognormal=False):
+                weekend_factor=1.0, summer_factor=1.0, spikes=0, lognormal=False, step=None):
     rng = np.random.default_rng(4000 + seed)
     idx = temp.index
     y = curve(temp.to_numpy(), base, hs, hbp, cs, cbp)
@@ -77,6 +77,8 @@ def daily_usage(temp, base=20.0, hs=1.0, hbp=55.0, cs=1.0, cbp=68.0, noise=0.02,
         y = np.where(idx.dayofweek >= 5, y * weekend_factor, y)
     if summer_factor != 1.0:
         y = np.where(idx.month.isin([6, 7, 8, 9]), y * summer_factor, y)
+    if step is not None:  # (first day, added constant load): a non-weather step inside the year -> strongly autocorrelated residuals
+        y = y + np.where(np.arange(len(y)) >= step[0], step[1], 0.0)
     if lognormal:
         y = y * rng.lognormal(0, noise, len(y))
     else:
